@@ -371,3 +371,29 @@ pub uninterp spec fn record_value(record: VmIndex, fields: Seq<Value>) -> Value;
 pub fn alloc_record(record: VmIndex, elems: &[Value]) -> (r: Result<DataRef, Error>)
     ensures r is Ok ==> dataref_value(r->Ok_0) == record_value(record, elems@)
 { unimplemented!() }
+
+// ---- the instruction being dispatched, for arm groups (same variants as vm/src/types.rs::Instruction, checked by name)
+pub enum Instruction {
+    PushInt(VmInt), PushByte(u8), PushFloat(EqFloat), PushString(VmIndex), PushUpVar(VmIndex), Push(VmIndex),
+    Call(VmIndex), TailCall(VmIndex),
+    ConstructVariant { tag: VmIndex, args: VmIndex }, ConstructPolyVariant { tag: VmIndex, args: VmIndex },
+    NewVariant { tag: VmIndex, args: VmIndex }, NewRecord { record: VmIndex, args: VmIndex },
+    CloseData { index: VmIndex }, ConstructRecord { record: VmIndex, args: VmIndex }, ConstructArray(VmIndex),
+    GetOffset(VmIndex), GetField(VmIndex), Split, TestTag(VmTag), TestPolyTag(VmIndex),
+    Jump(VmIndex), CJump(VmIndex), Pop(VmIndex), Slide(VmIndex),
+    MakeClosure { function_index: VmIndex, upvars: VmIndex }, NewClosure { function_index: VmIndex, upvars: VmIndex },
+    CloseClosure(VmIndex),
+    AddInt, SubtractInt, MultiplyInt, DivideInt, IntLT, IntEQ,
+    AddByte, SubtractByte, MultiplyByte, DivideByte, ByteLT, ByteEQ,
+    AddFloat, SubtractFloat, MultiplyFloat, DivideFloat, FloatLT, FloatEQ,
+    Return,
+}
+use Instruction::TailCall;
+impl StackFrame {
+    // StackFrame<ClosureState>::set_instruction_index: records the resume point in the cached and the stored top frame; values untouched
+    #[verifier::external_body]
+    pub fn set_instruction_index(&mut self, instruction_index: usize)
+        ensures final(self).stack.values@ == old(self).stack.values@, final(self).stack.frames@.len() == old(self).stack.frames@.len(),
+                final(self).stack.max_stack_size == old(self).stack.max_stack_size
+    { unimplemented!() }
+}
